@@ -48,8 +48,17 @@ BuildStep(st, seeds, fz) ==
   IN  [built |-> st.built \cup B, cache |-> FillLevels(c0, need, 1),
        edges |-> st.edges \cup NewEdges(B)]
 
+\* the nodes an evaluate(n) has to build: n itself when it is not in the cell
+\* map, else the missing nodes (a trimmed range) that the descent through
+\* uncomputed cells runs into
+RECURSIVE MissingNeeded(_, _, _)
+MissingNeeded(x, st, fz) ==
+  IF x \notin st.built THEN {x}
+  ELSE IF st.cache[x] # NoneV \/ x \in fz THEN {}
+  ELSE UNION {MissingNeeded(q, st, fz) : q \in PrecMap[x]}
+
 EvalStepF(st, n, fz) ==
-  LET s1 == BuildStep(st, {n}, fz)
+  LET s1 == BuildStep(st, MissingNeeded(n, st, fz), fz)
   IN  [s1 EXCEPT !.cache = FillLevels(s1.cache, NeededF(n, s1.cache, fz), 1)]
 
 Cur == [built |-> built, cache |-> cache, edges |-> edges]
@@ -100,7 +109,9 @@ Trim(I, O) ==
          needed0 == Dependants(starts \cap st.built, {}, st.edges) \cup O
          kids   == Reached(O, {}, needed0, frozen) 
          newfz  == {k \in kids : k \notin needed0 /\ ~IsRangeAddr(k)}
-         keep   == needed0 \cup newfz
+         \* the cell mapping an unbounded range onto its bounded range is kept:
+         \* a reloaded model needs it to resolve the range
+         keep   == needed0 \cup newfz \cup (kids \cap Aliases)
      IN  /\ \A i \in I : i \in st.built /\ (InGraph(i, st.edges) \/ i \in O)
          /\ built' = st.built \cap keep
          /\ cache' = [x \in Nodes |-> IF x \in st.built \cap keep THEN st.cache[x] ELSE NoneV]
